@@ -114,10 +114,11 @@ def shard_main(argv):
     try:
         mod.run_shard(rec, int(seed), shard, tier)
     except BaseException as e:  # harness failure: inconclusive, never a verdict
-        rec.inconclusive.append(
-            f"shard {shard} crashed: {type(e).__name__}: {e}\n"
-            + traceback.format_exc()[-1500:]
-        )
+        try:
+            tb = traceback.format_exc()[-1500:]
+        except BaseException:  # noqa - formatting a RecursionError's traceback can itself overflow
+            tb = "<traceback could not be formatted>"
+        rec.inconclusive.append(f"shard {shard} crashed: {type(e).__name__}: {str(e)[:300]}\n" + tb)
     d = rec.dump()
     d["wall_s"] = time.time() - t0
     with open(out, "w") as f:
